@@ -5,7 +5,7 @@
 //
 //   case <id> | <expr> | <leaf specs> | <events>
 //
-//   expr   := (just N) (jerr N) (jdone) (argv N) (sir) (leaf N)
+//   expr   := (just N) (jerr N) (jdone) (argv N) (sir) (leaf N) (jfrom N) (jvod 0|1) (iv E) (dfr E) (alc E)
 //             (then FN E) (uerr FN E) (udone N E) (md E) (dao N E) (uns E) (tag N E) (src E) (era E)
 //             (lv A B) (le A B) (ld A B) (seq A B) (fin A B) (wa A B) (sw A B)
 //   FN     := add:K | thr:E | tie:C:E:K
@@ -18,7 +18,12 @@
 //   event result := comma separated, sorted:  lsI:S:T (leaf I started, S = stop already requested,
 //                   T = tag seen) | lpI (leaf I got a stop notification) | R=vN / R=eN / R=d (root completed)
 //   plus monitors: "!!" items (root completed twice, completion before start, …)
+#include <unifex/allocate.hpp>
 #include <unifex/any_sender_of.hpp>
+#include <unifex/defer.hpp>
+#include <unifex/into_variant.hpp>
+#include <unifex/just_from.hpp>
+#include <unifex/just_void_or_done.hpp>
 #include <unifex/dematerialize.hpp>
 #include <unifex/done_as_optional.hpp>
 #include <unifex/finally.hpp>
@@ -204,7 +209,15 @@ static Any build(World* w, const Node& n, int arg) {
 #if !UNIFEX_NO_COROUTINES
   if (k == "sir") return Any{then(stop_if_requested(), []() noexcept { return 0; })};
 #endif
+  if (k == "jfrom") { int v = num(0); return Any{just_from([v]() noexcept { return v; })}; }
+  if (k == "jvod") return Any{then(just_void_or_done(num(0) != 0), []() noexcept { return 0; })};
   if (k == "leaf") return Any{LeafSender{w, num(0)}};
+  if (k == "iv") {
+    return Any{then(into_variant(build(w, n.ch.at(0), arg)),
+                    [](auto&& var) noexcept { return std::get<0>(std::get<0>(var)); })};
+  }
+  if (k == "dfr") { const Node* c = &n.ch.at(0); return Any{defer([w, c, arg]() { return build(w, *c, arg); })}; }
+  if (k == "alc") return Any{allocate(build(w, n.ch.at(0), arg))};
   if (k == "then") { Fn f = parse_fn(n.args.at(0)); return Any{then(build(w, n.ch.at(0), arg), f)}; }
   if (k == "uerr") {
     Fn f = parse_fn(n.args.at(0));
